@@ -1,13 +1,12 @@
 (** C24 — Statement execution never panics and never silently wraps numbers.
     Only pinned statements, each closed by [exact] of a lemma proved in Mech/*Laws.v.
 
-    Model: Mech/Arith.v (operators, unary minus, ABS, MOD, SUM/AVG accumulation, simd sums,
-    SUBSTRING index arithmetic, range_scan guards), Mech/F64.v (float primitives).
-    [profile] = Debug (overflow checks on: an unchecked overflow panics) | Release (it wraps).
-
-    The full-strength statements ("no operator ever panics", "every integer result is exact") are
-    FALSE of the faithful model and of the code: each has a [_refuted] witness, the exact
-    characterisation of when it fails, and the true statement under that side condition. *)
+    Model: Mech/Arith.v (operators, unary minus, ABS, MOD, SUM/AVG accumulation, columnar sums,
+    SUBSTRING, range_scan guards) for the code AS REPAIRED by the C24 fix commits: checked integer
+    arithmetic, checked UNSIGNED conversion, exact DIV, complete match arms in [/], i128 columnar sums,
+    SUBSTRING by characters, re-checked range bounds.  Every former [_refuted] witness is now a positive
+    statement ([*_former_witnesses]); the theorems hold for ALL inputs, in every build.
+    [profile] (Debug / Release) only governs the remaining unchecked row counters. *)
 From Coq Require Import ZArith List Bool.
 From VibeSQL Require Import Value.SqlValue Mech.F64 Mech.Arith Mech.ArithLaws Mech.AggLaws Mech.StrRangeLaws.
 Import ListNotations.
@@ -15,167 +14,147 @@ Open Scope Z_scope.
 
 (** * + - * on integer variants (INTEGER, SMALLINT, BIGINT, UNSIGNED, BOOLEAN) *)
 
-(** whatever [+ - *] returns on integer operands is the exact mathematical result: always in the
-    Debug profile, and in the Release profile exactly when the exact result fits i64 *)
+(** the exact mathematical result when it fits i64, an out-of-range error otherwise *)
+Theorem C24_arith_exact_or_out_of_range :
+  forall (temporal : bool -> sqlvalue -> sqlvalue -> res sqlvalue) (o : aop) (l r : sqlvalue) (a b : Z),
+    to_Z l = Some a -> to_Z r = Some b ->
+    unsigned_out_of_range l = false -> unsigned_out_of_range r = false ->
+    arith3 temporal o l r = (if fits_i64 (z_op o a b) then Ok (VInteger (z_op o a b)) else Err EUnsupported).
+Proof. exact arith_exact_or_out_of_range. Qed.
+Print Assumptions C24_arith_exact_or_out_of_range.
+
+(** whatever [+ - *] returns on integer operands is the exact result *)
 Theorem C24_arith_exact_or_error :
-  forall (temporal : bool -> sqlvalue -> sqlvalue -> res sqlvalue) (o : aop) (p : profile) (l r : sqlvalue) (a b : Z) (v : sqlvalue),
-    to_Z l = Some a -> to_Z r = Some b -> wf l = true -> wf r = true ->
-    unsigned_wrap l = false -> unsigned_wrap r = false ->
-    arith3 temporal o p l r = Ok v ->
-    (p = Debug \/ fits_i64 (z_op o a b) = true) ->
-    v = VInteger (z_op o a b).
+  forall (temporal : bool -> sqlvalue -> sqlvalue -> res sqlvalue) (o : aop) (l r : sqlvalue) (a b : Z) (v : sqlvalue),
+    to_Z l = Some a -> to_Z r = Some b ->
+    unsigned_out_of_range l = false -> unsigned_out_of_range r = false ->
+    arith3 temporal o l r = Ok v -> v = VInteger (z_op o a b) /\ fits_i64 (z_op o a b) = true.
 Proof. exact arith_exact_or_error. Qed.
 Print Assumptions C24_arith_exact_or_error.
 
-(** no panic and the exact value under the no-overflow side condition, in both profiles *)
+(** an UNSIGNED operand above i64::MAX gives an error, never a reinterpreted value *)
+Theorem C24_arith_unsigned_out_of_range_is_error :
+  forall (temporal : bool -> sqlvalue -> sqlvalue -> res sqlvalue) (o : aop) (l r : sqlvalue) (a b : Z),
+    to_Z l = Some a -> to_Z r = Some b ->
+    unsigned_out_of_range l || unsigned_out_of_range r = true ->
+    exists e, arith3 temporal o l r = Err e.
+Proof. exact arith_unsigned_out_of_range_is_error. Qed.
+Print Assumptions C24_arith_unsigned_out_of_range_is_error.
+
+(** no panic for operands of ANY variant (the delegated date arithmetic is a hypothesis) *)
 Theorem C24_arith_no_panic :
-  forall (temporal : bool -> sqlvalue -> sqlvalue -> res sqlvalue) (o : aop) (p : profile) (l r : sqlvalue) (a b : Z),
-    to_Z l = Some a -> to_Z r = Some b -> wf l = true -> wf r = true ->
-    unsigned_wrap l = false -> unsigned_wrap r = false ->
-    fits_i64 (z_op o a b) = true ->
-    arith3 temporal o p l r = Ok (VInteger (z_op o a b)).
-Proof. exact arith_no_overflow_ok. Qed.
+  forall (temporal : bool -> sqlvalue -> sqlvalue -> res sqlvalue) (o : aop) (l r : sqlvalue) (x : panic),
+    (forall is_add l' r' y, temporal is_add l' r' <> Panic y) ->
+    arith3 temporal o l r <> Panic x.
+Proof. exact arith_never_panics. Qed.
 Print Assumptions C24_arith_no_panic.
 
-(** the unconditional statement is false: [SELECT 9223372036854775807 + 1] etc. panic (Debug) *)
-Theorem C24_arith_no_panic_refuted :
-  arith3 no_temporal OAdd Debug (VInteger i64_max) (VInteger 1) = Panic POverflow /\
-  arith3 no_temporal OSub Debug (VInteger i64_min) (VInteger 1) = Panic POverflow /\
-  arith3 no_temporal OMul Debug (VInteger 3037000500) (VInteger 3037000500) = Panic POverflow.
-Proof. exact arith_no_panic_refuted. Qed.
-Print Assumptions C24_arith_no_panic_refuted.
-
-(** ... and silently wrap (Release) *)
-Theorem C24_arith_exact_refuted :
-  arith3 no_temporal OAdd Release (VInteger i64_max) (VInteger 1) = Ok (VInteger i64_min) /\
-  arith3 no_temporal OSub Release (VInteger i64_min) (VInteger 1) = Ok (VInteger i64_max) /\
-  arith3 no_temporal OMul Release (VInteger i64_max) (VInteger 2) = Ok (VInteger (-2)).
-Proof. exact arith_silent_wrap_refuted. Qed.
-Print Assumptions C24_arith_exact_refuted.
-
-(** UNSIGNED above i64::MAX is reinterpreted: [CAST(18446744073709551615 AS UNSIGNED) + 0 = -1] *)
-Theorem C24_unsigned_wrap_refuted :
-  forall p, arith3 no_temporal OAdd p (VUnsigned (2 ^ 64 - 1)) (VInteger 0) = Ok (VInteger (-1)).
-Proof. exact unsigned_wrap_refuted. Qed.
-Print Assumptions C24_unsigned_wrap_refuted.
-
-(** exact characterisation: the Debug build panics iff the exact result leaves i64, the Release
-    build returns the two's-complement wrap of the exact result *)
-Theorem C24_arith_debug_panic_iff_overflow :
-  forall (temporal : bool -> sqlvalue -> sqlvalue -> res sqlvalue) (o : aop) (l r : sqlvalue) (a b : Z),
-    exact_pair l r = Some (a, b) ->
-    (arith3 temporal o Debug l r = Panic POverflow <-> fits_i64 (z_op o a b) = false).
-Proof. exact arith_debug_panic_iff_overflow. Qed.
-Print Assumptions C24_arith_debug_panic_iff_overflow.
-
-Theorem C24_arith_release_wraps :
-  forall (temporal : bool -> sqlvalue -> sqlvalue -> res sqlvalue) (o : aop) (l r : sqlvalue) (a b : Z),
-    exact_pair l r = Some (a, b) -> arith3 temporal o Release l r = Ok (VInteger (wrap64 (z_op o a b))).
-Proof. exact arith_release_wraps. Qed.
-Print Assumptions C24_arith_release_wraps.
-
-(** for operands of ANY variant (floats, strings, temporal values, NULL), the only panic of [+ - *] is
-    the Debug-profile i64 overflow on an exact pair (the delegated date arithmetic is a hypothesis) *)
-Theorem C24_arith_panic_only_overflow :
-  forall (temporal : bool -> sqlvalue -> sqlvalue -> res sqlvalue) (o : aop) (p : profile) (l r : sqlvalue) (x : panic),
-    (forall is_add l' r' y, temporal is_add l' r' <> Panic y) ->
-    arith3 temporal o p l r = Panic x ->
-    p = Debug /\ x = POverflow /\ exists a b, exact_pair l r = Some (a, b) /\ fits_i64 (z_op o a b) = false.
-Proof. exact arith_panic_only_overflow. Qed.
-Print Assumptions C24_arith_panic_only_overflow.
+(** the inputs that used to panic (debug) / wrap (release) / be reinterpreted *)
+Theorem C24_arith_former_witnesses :
+  arith3 no_temporal OAdd (VInteger i64_max) (VInteger 1) = Err EUnsupported /\
+  arith3 no_temporal OSub (VInteger i64_min) (VInteger 1) = Err EUnsupported /\
+  arith3 no_temporal OMul (VInteger 3037000500) (VInteger 3037000500) = Err EUnsupported /\
+  arith3 no_temporal OMul (VInteger i64_max) (VInteger 2) = Err EUnsupported /\
+  arith3 no_temporal OAdd (VUnsigned (2 ^ 64 - 1)) (VInteger 0) = Err EConversion.
+Proof. exact arith_former_witnesses. Qed.
+Print Assumptions C24_arith_former_witnesses.
 
 (** * % , DIV, / *)
 Theorem C24_modulo_exact :
-  forall (l r : sqlvalue) (a b : Z) (v : sqlvalue),
-    to_Z l = Some a -> to_Z r = Some b -> wf l = true -> wf r = true ->
-    unsigned_wrap l = false -> unsigned_wrap r = false ->
-    modulo l r = Ok v ->
-    (b = 0 /\ v = VNull) \/ (b <> 0 /\ v = VInteger (Z.rem a b)).
+  forall (l r : sqlvalue) (a b : Z),
+    to_Z l = Some a -> to_Z r = Some b ->
+    unsigned_out_of_range l = false -> unsigned_out_of_range r = false ->
+    modulo l r = Ok (if b =? 0 then VNull else VInteger (Z.rem a b)).
 Proof. exact modulo_exact. Qed.
 Print Assumptions C24_modulo_exact.
 
-(** [i64::MIN % -1] panics in both profiles, and is the only panic of [%] *)
-Theorem C24_modulo_panic_iff :
-  forall (l r : sqlvalue) (x : panic),
-    modulo l r = Panic x <-> x = POverflow /\ exact_pair l r = Some (i64_min, -1).
-Proof. exact modulo_panic_iff. Qed.
-Print Assumptions C24_modulo_panic_iff.
+Theorem C24_modulo_never_panics : forall (l r : sqlvalue) (x : panic), modulo l r <> Panic x.
+Proof. exact modulo_never_panics. Qed.
+Print Assumptions C24_modulo_never_panics.
+
+(** DIV is exact i64 division *)
+Theorem C24_integer_divide_exact :
+  forall (l r : sqlvalue) (a b : Z),
+    to_Z l = Some a -> to_Z r = Some b ->
+    unsigned_out_of_range l = false -> unsigned_out_of_range r = false ->
+    integer_divide l r =
+    (if b =? 0 then Err EDivisionByZero
+     else if (a =? i64_min) && (b =? -1) then Err EUnsupported
+     else Ok (VInteger (Z.quot a b))).
+Proof. exact integer_divide_exact. Qed.
+Print Assumptions C24_integer_divide_exact.
 
 Theorem C24_integer_divide_never_panics : forall (l r : sqlvalue) (x : panic), integer_divide l r <> Panic x.
 Proof. exact integer_divide_never_panics. Qed.
 Print Assumptions C24_integer_divide_never_panics.
 
-(** DIV goes through f64: not exact above 2^53, saturates at i64::MIN DIV -1 *)
-Theorem C24_integer_divide_exact_refuted :
-  integer_divide (VInteger 9007199254740993) (VInteger 1) = Ok (VInteger 9007199254740992) /\
-  integer_divide (VInteger i64_min) (VInteger (-1)) = Ok (VInteger i64_max).
-Proof. exact integer_divide_inexact_refuted. Qed.
-Print Assumptions C24_integer_divide_exact_refuted.
+Theorem C24_integer_divide_former_witnesses :
+  integer_divide (VInteger 9007199254740993) (VInteger 1) = Ok (VInteger 9007199254740993) /\
+  integer_divide (VInteger i64_min) (VInteger (-1)) = Err EUnsupported /\
+  integer_divide (VInteger (-7)) (VInteger 2) = Ok (VInteger (-3)).
+Proof. exact integer_divide_former_witnesses. Qed.
+Print Assumptions C24_integer_divide_former_witnesses.
 
-(** PARTIAL: exactness of DIV is proved only on the box |a|,|b| <= 200 (exhaustive evaluation of the
-    model); the general statement for |a|,|b| <= 2^53 needs the rounding theory of SFdiv and is only
-    validated by the tie *)
-Theorem C24_integer_divide_exact_small_partial :
-  forall a b : Z, -200 <= a <= 200 -> -200 <= b <= 200 -> b <> 0 ->
-    integer_divide (VInteger a) (VInteger b) = Ok (VInteger (Z.quot a b)).
-Proof. exact integer_divide_exact_small. Qed.
-Print Assumptions C24_integer_divide_exact_small_partial.
+(** [/] never panics: any operands, either mode *)
+Theorem C24_divide_never_panics :
+  forall (m : sqlmode) (l r : sqlvalue) (x : panic), divide m l r <> Panic x.
+Proof. exact divide_never_panics. Qed.
+Print Assumptions C24_divide_never_panics.
 
-(** [/] panics exactly on the operand classes for which [divide] has no match arm *)
-Theorem C24_divide_panic_iff :
-  forall (m : sqlmode) (l r : sqlvalue) (x : panic),
-    divide m l r = Panic x <-> x = PUnreachable /\ div_unreachable_class m l r = true.
-Proof. exact divide_panic_iff. Qed.
-Print Assumptions C24_divide_panic_iff.
-
-(** on integer-variant operands [/] never panics (it returns a NUMERIC, an integer, or NULL) *)
-Theorem C24_divide_int_no_panic :
-  forall (m : sqlmode) (l r : sqlvalue) (a b : Z) (x : panic),
-    to_Z l = Some a -> to_Z r = Some b -> divide m l r <> Panic x.
-Proof. exact divide_int_no_panic. Qed.
-Print Assumptions C24_divide_int_no_panic.
-
-Theorem C24_divide_no_panic_refuted :
-  divide MySQL (VFloat 1069547520) (VInteger 2) = Panic PUnreachable /\
-  divide SQLite (VBoolean true) (VNumeric 4609434218613702656) = Panic PUnreachable.
-Proof. exact divide_no_panic_refuted. Qed.
-Print Assumptions C24_divide_no_panic_refuted.
+Theorem C24_divide_former_witnesses :
+  divide MySQL (VFloat 1069547520) (VInteger 2) = Ok (VNumeric 4604930618986332160) /\
+  divide SQLite (VBoolean true) (VNumeric 4609434218613702656) = Ok (VFloat 1065353216).
+Proof. exact divide_former_witnesses. Qed.
+Print Assumptions C24_divide_former_witnesses.
 
 (** * unary minus, ABS, MOD() *)
-Theorem C24_unary_minus_panic_iff :
-  forall (p : profile) (v : sqlvalue) (x : panic), wf v = true ->
-    (unary_minus p v = Panic x <-> p = Debug /\ x = POverflow /\ neg_overflow_class v = true).
-Proof. exact unary_minus_panic_iff. Qed.
-Print Assumptions C24_unary_minus_panic_iff.
+Theorem C24_unary_minus_exact_or_error :
+  forall (v : sqlvalue) (z : Z),
+    wf v = true -> int3 v -> to_Z v = Some z ->
+    unary_minus v = (if neg_overflow_class v then Err EUnsupported else Ok (same_variant_with v (- z))).
+Proof. exact unary_minus_exact_or_error. Qed.
+Print Assumptions C24_unary_minus_exact_or_error.
 
-Theorem C24_unary_minus_exact :
-  forall (p : profile) (v : sqlvalue) (z : Z),
-    wf v = true -> neg_overflow_class v = false ->
-    match v with VInteger _ | VBigint _ | VSmallint _ => True | _ => False end ->
-    to_Z v = Some z -> exists w, unary_minus p v = Ok w /\ to_Z w = Some (- z).
-Proof. exact unary_minus_exact. Qed.
-Print Assumptions C24_unary_minus_exact.
+Theorem C24_unary_minus_never_panics : forall (v : sqlvalue) (x : panic), unary_minus v <> Panic x.
+Proof. exact unary_minus_never_panics. Qed.
+Print Assumptions C24_unary_minus_never_panics.
 
-Theorem C24_unary_minus_refuted :
-  unary_minus Debug (VInteger i64_min) = Panic POverflow /\
-  unary_minus Release (VInteger i64_min) = Ok (VInteger i64_min) /\
-  unary_minus Release (VSmallint (-32768)) = Ok (VSmallint (-32768)).
-Proof. exact unary_minus_refuted. Qed.
-Print Assumptions C24_unary_minus_refuted.
+Theorem C24_abs_exact_or_error :
+  forall (v : sqlvalue) (z : Z),
+    wf v = true -> int3 v -> to_Z v = Some z ->
+    abs_fn v = (if neg_overflow_class v then Err EUnsupported else Ok (same_variant_with v (Z.abs z))).
+Proof. exact abs_exact_or_error. Qed.
+Print Assumptions C24_abs_exact_or_error.
 
-Theorem C24_abs_panic_iff :
-  forall (p : profile) (v : sqlvalue) (x : panic), wf v = true ->
-    (abs_fn p v = Panic x <-> p = Debug /\ x = POverflow /\ neg_overflow_class v = true).
-Proof. exact abs_panic_iff. Qed.
-Print Assumptions C24_abs_panic_iff.
+Theorem C24_abs_never_panics : forall (v : sqlvalue) (x : panic), abs_fn v <> Panic x.
+Proof. exact abs_never_panics. Qed.
+Print Assumptions C24_abs_never_panics.
 
-Theorem C24_mod_fn_panic_iff :
-  forall (a b : sqlvalue) (x : panic),
-    mod_fn a b = Panic x <-> x = POverflow /\ a = VInteger i64_min /\ b = VInteger (-1).
-Proof. exact mod_fn_panic_iff. Qed.
-Print Assumptions C24_mod_fn_panic_iff.
+Theorem C24_unary_former_witnesses :
+  unary_minus (VInteger i64_min) = Err EUnsupported /\
+  unary_minus (VSmallint (-32768)) = Err EUnsupported /\
+  abs_fn (VBigint i64_min) = Err EUnsupported /\
+  unary_minus (VInteger i64_max) = Ok (VInteger (i64_min + 1)).
+Proof. exact unary_former_witnesses. Qed.
+Print Assumptions C24_unary_former_witnesses.
 
-(** * SUM accumulation (AggregateAccumulator) on integer columns *)
+Theorem C24_mod_fn_never_panics : forall (a b : sqlvalue) (x : panic), mod_fn a b <> Panic x.
+Proof. exact mod_fn_never_panics. Qed.
+Print Assumptions C24_mod_fn_never_panics.
+
+Theorem C24_mod_fn_exact :
+  forall x y : Z, mod_fn (VInteger x) (VInteger y) = Ok (if y =? 0 then VNull else VInteger (Z.rem x y)).
+Proof. exact mod_fn_exact. Qed.
+Print Assumptions C24_mod_fn_exact.
+
+(** * SUM / AVG accumulation (AggregateAccumulator) on integer columns: the exact sum or NULL *)
+Theorem C24_sum_exact_or_null :
+  forall (temporal : bool -> sqlvalue -> sqlvalue -> res sqlvalue) (p : profile) (vs : list sqlvalue),
+    int_col vs = true -> Z.of_nat (length vs) < 2 ^ 63 ->
+    agg_sum temporal p false vs = Ok (if prefixes_fit 0 (ints_of vs) then exact_sum_value vs else VNull).
+Proof. exact sum_exact_or_null. Qed.
+Print Assumptions C24_sum_exact_or_null.
+
 Theorem C24_sum_no_wrap :
   forall (temporal : bool -> sqlvalue -> sqlvalue -> res sqlvalue) (p : profile) (vs : list sqlvalue),
     int_col vs = true -> Z.of_nat (length vs) < 2 ^ 63 -> prefixes_fit 0 (ints_of vs) = true ->
@@ -183,162 +162,96 @@ Theorem C24_sum_no_wrap :
 Proof. exact sum_no_wrap. Qed.
 Print Assumptions C24_sum_no_wrap.
 
-Theorem C24_sum_debug_exact :
-  forall (temporal : bool -> sqlvalue -> sqlvalue -> res sqlvalue) (vs : list sqlvalue) (v : sqlvalue),
-    int_col vs = true -> agg_sum temporal Debug false vs = Ok v -> v = exact_sum_value vs.
-Proof. exact sum_debug_exact. Qed.
-Print Assumptions C24_sum_debug_exact.
-
-Theorem C24_sum_debug_panic_iff :
-  forall (temporal : bool -> sqlvalue -> sqlvalue -> res sqlvalue) (vs : list sqlvalue),
-    int_col vs = true -> Z.of_nat (length vs) < 2 ^ 63 ->
-    (agg_sum temporal Debug false vs = Panic POverflow <-> prefixes_fit 0 (ints_of vs) = false).
-Proof. exact sum_debug_panic_iff. Qed.
-Print Assumptions C24_sum_debug_panic_iff.
-
-Theorem C24_sum_release_wraps :
-  forall (temporal : bool -> sqlvalue -> sqlvalue -> res sqlvalue) (vs : list sqlvalue),
-    int_col vs = true -> Z.of_nat (length vs) < 2 ^ 63 ->
-    agg_sum temporal Release false vs =
-    Ok (match ints_of vs with [] => VNull | zs => VInteger (wrap64 (zsum zs)) end).
-Proof. exact sum_release_wraps. Qed.
-Print Assumptions C24_sum_release_wraps.
-
-Theorem C24_sum_no_wrap_refuted :
-  agg_sum no_temporal Debug false [VInteger i64_max; VInteger 1] = Panic POverflow /\
-  agg_sum no_temporal Release false [VInteger i64_max; VInteger 1] = Ok (VInteger i64_min).
-Proof. exact sum_no_wrap_refuted. Qed.
-Print Assumptions C24_sum_no_wrap_refuted.
-
-(** AVG over an integer column: same accumulation, one f64 division at the end *)
-Theorem C24_avg_no_wrap :
+Theorem C24_avg_exact_or_null :
   forall (temporal : bool -> sqlvalue -> sqlvalue -> res sqlvalue) (p : profile) (vs : list sqlvalue),
-    int_col vs = true -> Z.of_nat (length vs) < 2 ^ 63 -> prefixes_fit 0 (ints_of vs) = true ->
+    int_col vs = true -> Z.of_nat (length vs) < 2 ^ 63 ->
     agg_avg temporal p false vs =
-    Ok match ints_of vs with
-       | [] => VNull
-       | zs => VNumeric (fdiv b64 (f_of_Z b64 (zsum zs)) (f_of_Z b64 (Z.of_nat (length zs))))
-       end.
-Proof. exact avg_no_wrap. Qed.
-Print Assumptions C24_avg_no_wrap.
-
-Theorem C24_avg_debug_exact :
-  forall (temporal : bool -> sqlvalue -> sqlvalue -> res sqlvalue) (vs : list sqlvalue) (v : sqlvalue),
-    int_col vs = true -> agg_avg temporal Debug false vs = Ok v ->
-    v = match ints_of vs with
+    Ok (match ints_of vs with
         | [] => VNull
-        | zs => VNumeric (fdiv b64 (f_of_Z b64 (zsum zs)) (f_of_Z b64 (Z.of_nat (length zs))))
-        end.
-Proof. exact avg_debug_exact. Qed.
-Print Assumptions C24_avg_debug_exact.
+        | zs => if prefixes_fit 0 zs
+                then VNumeric (fdiv b64 (f_of_Z b64 (zsum zs)) (f_of_Z b64 (Z.of_nat (length zs))))
+                else VNull
+        end).
+Proof. exact avg_exact_or_null. Qed.
+Print Assumptions C24_avg_exact_or_null.
 
-(** partial sums of non-negative terms are monotone: the total alone decides *)
 Theorem C24_prefixes_fit_nonneg :
   forall (s : Z) (zs : list Z),
     0 <= s -> Forall (fun z => 0 <= z) zs -> fits_i64 (s + zsum zs) = true -> prefixes_fit s zs = true.
 Proof. exact prefixes_fit_nonneg. Qed.
 Print Assumptions C24_prefixes_fit_nonneg.
 
-(** * columnar sums: simd_sum_i64 and simd_aggregate_i64 *)
-Theorem C24_simd_sum_release_wraps : forall col : list Z, simd_sum_i64 Release col = Ok (wrap64 (zsum col)).
-Proof. exact simd_sum_release. Qed.
-Print Assumptions C24_simd_sum_release_wraps.
+Theorem C24_sum_former_witnesses :
+  agg_sum no_temporal Debug false [VInteger i64_max; VInteger 1] = Ok VNull /\
+  agg_sum no_temporal Release false [VInteger i64_max; VInteger 1] = Ok VNull /\
+  agg_sum no_temporal Release false [VInteger i64_max; VInteger 1; VInteger (-5)] = Ok VNull.
+Proof. exact sum_former_witnesses. Qed.
+Print Assumptions C24_sum_former_witnesses.
 
-Theorem C24_simd_sum_debug_exact : forall (col : list Z) (v : Z), simd_sum_i64 Debug col = Ok v -> v = zsum col.
-Proof. exact simd_sum_debug_exact. Qed.
-Print Assumptions C24_simd_sum_debug_exact.
+(** * columnar sums *)
+Theorem C24_simd_sum_exact : forall col : list Z, fits_i64 (zsum col) = true -> simd_sum_i64 col = zsum col.
+Proof. exact simd_sum_exact. Qed.
+Print Assumptions C24_simd_sum_exact.
 
-Theorem C24_simd_sum_nonneg :
-  forall (p : profile) (col : list Z),
-    Forall (fun z => 0 <= z) col -> fits_i64 (zsum col) = true -> simd_sum_i64 p col = Ok (zsum col).
-Proof. exact simd_sum_nonneg. Qed.
-Print Assumptions C24_simd_sum_nonneg.
+(** documented saturation of the i64 helper (the aggregate itself uses the wide sum) *)
+Theorem C24_simd_sum_saturates :
+  forall col : list Z, fits_i64 (zsum col) = false -> simd_sum_i64 col = (if zsum col <? 0 then i64_min else i64_max).
+Proof. exact simd_sum_saturates. Qed.
+Print Assumptions C24_simd_sum_saturates.
 
-(** the Debug build panics on an intermediate chunk sum although the total fits *)
-Theorem C24_simd_sum_intermediate_overflow_refuted :
-  simd_sum_i64 Debug [i64_max; 1; -5; 0] = Panic POverflow /\
-  fits_i64 (zsum [i64_max; 1; -5; 0]) = true /\
-  simd_sum_i64 Release [i64_max; 1; -5; 0] = Ok (zsum [i64_max; 1; -5; 0]).
-Proof. exact simd_sum_intermediate_overflow_refuted. Qed.
-Print Assumptions C24_simd_sum_intermediate_overflow_refuted.
-
-Theorem C24_simd_aggregate_release_wraps :
-  forall (bsize : nat) (vs : list sqlvalue),
+(** the columnar SUM of an integer column is the f64 nearest to the EXACT sum, for every column,
+    every batch size, every build *)
+Theorem C24_simd_aggregate_exact :
+  forall (p : profile) (bsize : nat) (vs : list sqlvalue),
     int_col vs = true -> Z.of_nat (length vs) < 2 ^ 63 ->
-    simd_aggregate_i64 Release bsize AggSum vs =
-    Ok (match ints_of vs with [] => VNull | zs => VDouble (f_of_Z b64 (wrap64 (zsum zs))) end).
-Proof. exact simd_aggregate_release_wraps. Qed.
-Print Assumptions C24_simd_aggregate_release_wraps.
+    simd_aggregate_i64 p bsize AggSum vs =
+    Ok (match ints_of vs with [] => VNull | zs => VDouble (f_of_Z b64 (zsum zs)) end).
+Proof. exact simd_aggregate_exact. Qed.
+Print Assumptions C24_simd_aggregate_exact.
 
-Theorem C24_simd_aggregate_debug_exact :
-  forall (bsize : nat) (vs : list sqlvalue) (v : sqlvalue),
-    int_col vs = true -> simd_aggregate_i64 Debug bsize AggSum vs = Ok v ->
-    v = match ints_of vs with [] => VNull | zs => VDouble (f_of_Z b64 (zsum zs)) end.
-Proof. exact simd_aggregate_debug_exact. Qed.
-Print Assumptions C24_simd_aggregate_debug_exact.
-
-Theorem C24_simd_aggregate_refuted :
-  simd_aggregate_i64 Debug 1024 AggSum [VInteger i64_max; VInteger 1] = Panic POverflow /\
-  simd_aggregate_i64 Release 1024 AggSum [VInteger i64_max; VInteger 1] = Ok (VDouble 14114281232179134464).
-Proof. exact simd_aggregate_refuted. Qed.
-Print Assumptions C24_simd_aggregate_refuted.
-
-(** the floating-point paths of the columnar SUM/AVG never panic; every panic of a columnar SUM/AVG is
-    an overflow of the i64 path (chosen when the first non-NULL value of the first 100 rows is an integer) *)
-Theorem C24_simd_aggregate_f64_no_panic :
+Theorem C24_columnar_aggregate_never_panics :
   forall (p : profile) (bsize : nat) (op : aggop) (vs : list sqlvalue) (x : panic),
-    Z.of_nat (length vs) < 2 ^ 63 -> simd_aggregate_f64 p bsize op vs <> Panic x.
-Proof. exact simd_aggregate_f64_no_panic. Qed.
-Print Assumptions C24_simd_aggregate_f64_no_panic.
+    Z.of_nat (length vs) < 2 ^ 63 -> columnar_aggregate p bsize op vs <> Panic x.
+Proof. exact columnar_aggregate_never_panics. Qed.
+Print Assumptions C24_columnar_aggregate_never_panics.
 
-Theorem C24_columnar_aggregate_panic_only_i64_path :
-  forall (p : profile) (bsize : nat) (op : aggop) (vs : list sqlvalue) (x : panic),
-    Z.of_nat (length vs) < 2 ^ 63 ->
-    columnar_aggregate p bsize op vs = Panic x ->
-    can_use_simd 100 vs = Some true /\ simd_aggregate_i64 p bsize op vs = Panic x.
-Proof. exact columnar_aggregate_panic_only_i64_path. Qed.
-Print Assumptions C24_columnar_aggregate_panic_only_i64_path.
+Theorem C24_simd_aggregate_former_witness :
+  simd_aggregate_i64 Debug 1024 AggSum [VInteger i64_max; VInteger 1] = Ok (VDouble 4890909195324358656) /\
+  simd_aggregate_i64 Release 1024 AggSum [VInteger i64_max; VInteger 1] = Ok (VDouble 4890909195324358656).
+Proof. exact simd_aggregate_former_witness. Qed.
+Print Assumptions C24_simd_aggregate_former_witness.
 
 (** * SUBSTRING *)
-(** for any text, start and length the index arithmetic cannot overflow [usize] and the slice is in
-    range: the only panic is a byte index inside a multi-byte character *)
-Theorem C24_substring_panic_only_char_boundary :
-  forall (p : profile) (s : list Z) (start l : Z) (x : panic),
-    str_ok s -> i64_ok start -> i64_ok l ->
-    (substring p [VVarchar s; VInteger start; VInteger l] = Panic x \/
-     substring p [VVarchar s; VInteger start] = Panic x) ->
-    x = PCharBoundary.
-Proof. exact substring_panic_only_char_boundary. Qed.
-Print Assumptions C24_substring_panic_only_char_boundary.
+Theorem C24_substring_no_panic : forall (args : list sqlvalue) (x : panic), substring args <> Panic x.
+Proof. exact substring_never_panics. Qed.
+Print Assumptions C24_substring_no_panic.
 
+(** the window is counted in characters of the UTF-8 text *)
+Theorem C24_substring_spec :
+  forall (s : list Z) (start l : Z),
+    substring [VVarchar s; VInteger start; VInteger l] =
+    Ok (VVarchar (if l <=? 0 then [] else concat (takeZ l (skipZ (start_index start) (utf8_chars s))))).
+Proof. exact substring3_spec. Qed.
+Print Assumptions C24_substring_spec.
 
-(** exact characterisation of the panicking calls *)
-Theorem C24_substring_panic_iff :
-  forall (p : profile) (s : list Z) (start l : Z) (x : panic),
-    str_ok s -> i64_ok start -> i64_ok l ->
-    (substring p [VVarchar s; VInteger start; VInteger l] = Panic x <->
-     x = PCharBoundary /\ start_index start < len s /\ 0 < l /\
-     is_char_boundary s (start_index start) && is_char_boundary s (Z.min (start_index start + l) (len s)) = false).
-Proof. exact substring3_panic_iff. Qed.
-Print Assumptions C24_substring_panic_iff.
+(** the characters partition the bytes *)
+Theorem C24_utf8_chars_concat : forall s : list Z, concat (utf8_chars s) = s.
+Proof. exact utf8_chars_concat. Qed.
+Print Assumptions C24_utf8_chars_concat.
 
-(** on ASCII text it never panics and returns the requested window *)
-Theorem C24_substring_no_panic_ascii :
-  forall (p : profile) (s : list Z) (start l : Z),
-    ascii s -> str_ok s -> i64_ok start -> i64_ok l ->
-    substring p [VVarchar s; VInteger start; VInteger l] =
-    Ok (VVarchar (if (len s <=? start_index start) || (l <=? 0) then []
-                  else firstn (Z.to_nat (Z.min (start_index start + l) (len s) - start_index start))
-                              (skipn (Z.to_nat (start_index start)) s))).
-Proof. exact substring_ascii_no_panic. Qed.
-Print Assumptions C24_substring_no_panic_ascii.
+Theorem C24_substring_ascii :
+  forall (s : list Z) (start l : Z), ascii s ->
+    substring [VVarchar s; VInteger start; VInteger l] =
+    Ok (VVarchar (if l <=? 0 then [] else takeZ l (skipZ (start_index start) s))).
+Proof. exact substring_ascii. Qed.
+Print Assumptions C24_substring_ascii.
 
-Theorem C24_substring_no_panic_refuted :
-  forall p,
-    substring p [VVarchar [195; 169]; VInteger 2] = Panic PCharBoundary /\
-    substring p [VVarchar [104; 195; 169; 108; 108; 111]; VInteger 2; VInteger 1] = Panic PCharBoundary.
-Proof. exact substring_no_panic_refuted. Qed.
-Print Assumptions C24_substring_no_panic_refuted.
+Theorem C24_substring_former_witnesses :
+  substring [VVarchar [195; 169]; VInteger 2] = Ok (VVarchar []) /\
+  substring [VVarchar [104; 195; 169; 108; 108; 111]; VInteger 2; VInteger 1] = Ok (VVarchar [195; 169]) /\
+  substring [VVarchar [104; 195; 169; 108; 108; 111]; VInteger 3; VInteger 2] = Ok (VVarchar [108; 108]).
+Proof. exact substring_former_witnesses. Qed.
+Print Assumptions C24_substring_former_witnesses.
 
 (** * range_scan guards before BTreeMap::range *)
 Theorem C24_range_plan_never_panics :
@@ -347,36 +260,23 @@ Theorem C24_range_plan_never_panics :
 Proof. exact range_plan_never_panics. Qed.
 Print Assumptions C24_range_plan_never_panics.
 
-(** single-column indexes: for every pair of bounds (NaN, mixed types, inverted, degenerate) the guards
-    establish the precondition of BTreeMap::range *)
+(** for single-column and multi-column indexes and every pair of bounds the guards establish the
+    precondition of BTreeMap::range *)
 Theorem C24_range_guards_imply_precondition :
-  forall (p : profile) (start end_ : option sqlvalue) (incl_s incl_e : bool) (sb eb : bound),
-    range_plan p false start end_ incl_s incl_e = Ok (PlanRange sb eb) -> btree_range_ok sb eb = true.
-Proof. exact range_guards_single_column. Qed.
+  forall (p : profile) (multi : bool) (start end_ : option sqlvalue) (incl_s incl_e : bool) (sb eb : bound),
+    range_plan p multi start end_ incl_s incl_e = Ok (PlanRange sb eb) -> btree_range_ok sb eb = true.
+Proof. exact range_guards_imply_precondition. Qed.
 Print Assumptions C24_range_guards_imply_precondition.
 
-Theorem C24_range_scan_single_column_no_panic :
-  forall (p : profile) (nonempty : bool) (start end_ : option sqlvalue) (incl_s incl_e : bool),
-    range_scan_outcome p false nonempty start end_ incl_s incl_e = Ok tt.
-Proof. exact range_scan_single_column_no_panic. Qed.
-Print Assumptions C24_range_scan_single_column_no_panic.
+Theorem C24_range_scan_never_panics :
+  forall (p : profile) (multi nonempty : bool) (start end_ : option sqlvalue) (incl_s incl_e : bool) (x : panic),
+    range_scan_outcome p multi nonempty start end_ incl_s incl_e <> Panic x.
+Proof. exact range_scan_never_panics. Qed.
+Print Assumptions C24_range_scan_never_panics.
 
-(** multi-column indexes: true when the start bound is used as given *)
-Theorem C24_range_guards_multi_column :
-  forall (p : profile) (start end_ : option sqlvalue) (incl_s incl_e : bool) (sb eb : bound),
-    multi_start_unchanged p start incl_s = true ->
-    range_plan p true start end_ incl_s incl_e = Ok (PlanRange sb eb) -> btree_range_ok sb eb = true.
-Proof. exact range_guards_multi_column. Qed.
-Print Assumptions C24_range_guards_multi_column.
-
-(** ... and false otherwise: [d > 1.5 AND d < 1.5000000000000002] on an index (d, a) *)
-Theorem C24_range_guards_multi_column_refuted :
+Theorem C24_range_former_witness :
   forall p,
-    range_plan p true (Some (VDouble 4609434218613702656)) (Some (VDouble 4609434218613702657)) false false
-    = Ok (PlanRange (BIncluded [VDouble 4609434218613702658]) (BExcluded [VDouble 4609434218613702657])) /\
-    btree_range_ok (BIncluded [VDouble 4609434218613702658]) (BExcluded [VDouble 4609434218613702657]) = false /\
-    range_scan_outcome p true true (Some (VDouble 4609434218613702656)) (Some (VDouble 4609434218613702657)) false false
-    = Panic PRangeOrder /\
-    multi_start_unchanged p (Some (VDouble 4609434218613702656)) false = false.
-Proof. exact range_guards_multi_column_refuted. Qed.
-Print Assumptions C24_range_guards_multi_column_refuted.
+    range_plan p true (Some (VDouble 4609434218613702656)) (Some (VDouble 4609434218613702657)) false false = Ok PlanEmpty /\
+    range_scan_outcome p true true (Some (VDouble 4609434218613702656)) (Some (VDouble 4609434218613702657)) false false = Ok tt.
+Proof. exact range_former_witness. Qed.
+Print Assumptions C24_range_former_witness.
